@@ -217,3 +217,64 @@ def keyword_coupling_rule(chk: Check, rid: str, relpaths: Iterable[str],
                     chk.ok(rid, fi, c, text, "{} keyword(s), all read{}"
                            .format(len(passed), " (catch-all handed on)"
                                    if opened else ""))
+
+
+def shared_dest_defaults_rule(chk: Check, rid: str, relpaths: Iterable[str],
+                              floor: int) -> None:
+    """argparse fills a destination shared by several options from the
+    *first* action that declares it; a `default=` on a later action is
+    never used.  The default of such a destination is therefore declared
+    with `parser.set_defaults(<dest>=...)` (or on the first action).  A
+    default moved onto "the option documented as the default" silently
+    becomes None, and the tool runs in whatever mode None happens to select.
+    """
+    from sa.model import walk_local
+    prog = chk.prog
+    relpaths = list(relpaths)
+    chk.rule(rid, "every option destination shared by several options of a "
+             "tool gets its default from set_defaults() or from the first "
+             "option declared for it", floor=floor)
+    for fi in prog.functions.values():
+        if fi.module.relpath not in relpaths:
+            continue
+        adds = [c for c in walk_local(fi.node) if isinstance(c, ast.Call) and
+                isinstance(c.func, ast.Attribute) and
+                c.func.attr == "add_argument"]
+        if not adds:
+            continue
+        adds.sort(key=lambda c: (c.lineno, c.col_offset))
+        by_dest = {}
+        for c in adds:
+            kw = {k.arg: k.value for k in c.keywords}
+            d = kw.get("dest")
+            if isinstance(d, ast.Constant):
+                by_dest.setdefault(d.value, []).append((c, kw))
+        setdef = set()
+        for c in walk_local(fi.node):
+            if isinstance(c, ast.Call) and \
+                    isinstance(c.func, ast.Attribute) and \
+                    c.func.attr == "set_defaults":
+                setdef |= {k.arg for k in c.keywords if k.arg}
+        for dest, acts in sorted(by_dest.items()):
+            if len(acts) < 2:
+                continue
+            text = "{}: destination `{}` of {} options".format(
+                fi.short, dest, len(acts))
+            late = [c for c, kw in acts[1:] if "default" in kw]
+            first_has = "default" in acts[0][1]
+            if late:
+                chk.fail(rid, fi, late[0], text,
+                         "a later option of the group carries `default=`: "
+                         "argparse takes the default of a shared "
+                         "destination from the first option declared for "
+                         "it, so this one is never used")
+            elif dest in setdef or first_has:
+                chk.ok(rid, fi, acts[0][0], text,
+                       "default from {}".format(
+                           "set_defaults()" if dest in setdef
+                           else "the first option"))
+            else:
+                chk.fail(rid, fi, acts[0][0], text,
+                         "no default is declared for the shared "
+                         "destination: without any of the options the tool "
+                         "sees None")
